@@ -2,7 +2,7 @@
 from .mcommon import *
 from .roles import classify_write, adt_of
 from .facts import strip_generics, Operand, Place
-from .analysis import sources, success_edges, reach_without_edges
+from .analysis import sources_across, sources, success_edges, reach_without_edges
 from .engine import Undecided
 
 TECHNIQUE = 'dominance order of hook / recycle / create steps with success-edge must-pass-through, data-flow origin of the handed-out value, error-constructor inventory (match tables) on mir_built'
@@ -164,8 +164,8 @@ def run(ctx):
             srcs = [sources(an, x) for x in a.term.args]
             if len(srcs) >= 4 and any(s[0] == 'call' and s[1] == mcall for s in srcs[3]):
                 t_ok = ('agg', TIMEOUT_TYPE + '::' + tt) in {(s[0], s[1]) for s in srcs[1] if s[0] == 'agg'}
-                d_ok = any(s[0] in ('upvar', 'field') and s[1].endswith('.' + fld) and 'timeouts' in s[1].lower() or
-                           (s[0] == 'field' and s[1] == 'deadpool::managed::config::Timeouts.' + fld) for s in srcs[2])
+                # followed through the parameters of async helpers (a helper may take `timeouts.recycle` instead of `&Timeouts`)
+                d_ok = any(s[0] == 'field' and s[1] == 'deadpool::managed::config::Timeouts.' + fld for s in sources_across(prog, b, a.term.args[2], deep=True))
                 ok = t_ok and d_ok
                 detail = 'TimeoutType ok=%s, duration from timeouts.%s ok=%s' % (t_ok, fld, d_ok)
         ctx.ob('R04.1', 'Manager::%s runs under apply_timeout(TimeoutType::%s, timeouts.%s)' % (mcall.split('::')[-1], tt, fld), ok,
@@ -330,8 +330,8 @@ def run(ctx):
         if not wraps_acquire:
             continue
         tts = sorted(s[1].split('::')[-1] for s in srcs[1] if s[0] == 'agg')
-        durs = sorted(s[1] for s in srcs[2] if s[0] in ('field', 'upvar'))
-        ok = tts == ['Wait'] and any(d.endswith('.wait') for d in durs)
+        durs = sorted(str(s[1]) for s in sources_across(prog, root, a.term.args[2], deep=True) if s[0] in ('field', 'upvar'))
+        ok = tts == ['Wait'] and any(d == 'deadpool::managed::config::Timeouts.wait' for d in durs)
         ctx.ob('R04.5', 'waiting for a slot runs under apply_timeout(TimeoutType::Wait, timeouts.wait)', ok, ctx.where(root, a.term.line),
                'TimeoutType %s, duration %s' % (tts, durs), construct='timeout-wrap:Wait')
 
